@@ -1125,6 +1125,14 @@ def kar_templates(two_syllables=False, thorough=False):
     return words
 
 
+def shown_text(prog, ret):
+    """The text a returned Suggestion shows for the composition: the single string, or the first candidate of a list."""
+    if ret.variant == prog.enums["Suggestion"]["Single"]:
+        return ret.fields[prog.enum_fields[("Suggestion", "Single")].index("suggestion")].elems
+    items = ret.fields[prog.enum_fields[("Suggestion", "Full")].index("suggestions")].items
+    return items[0].elems if items else []
+
+
 def make_kar_history(shape, prop_fn=None, constrain=None):
     name, tw, un = shape["word"]
 
@@ -1162,13 +1170,16 @@ def make_kar_history(shape, prop_fn=None, constrain=None):
                 out.append(v)
             return out
         twv, unv = val(tw), val(un)
-        fixed_common = {"fixed_suggestion": False, "ansi": False, "fixed_numpad": False, "include_english": False,
+        # the suggestion switch is symbolic: with the list on, the candidate assembly is its contract (first candidate = the text as composed when
+        # the list was made), so a list that is not rebuilt for a key shows in the text the user sees
+        fixed_common = {"ansi": False, "fixed_numpad": False, "include_english": False,
                         "phonetic_suggestion": False, "smart_quote": False}
+        it.env["overrides"] = {"FixedMethod::create_dictionary_suggestion": stub_dictionary_suggestion}
         if any(isinstance(x, tuple) and x[0] == "X" for k in tw for x in k):
             fixed_common["fixed_vowel"] = False
         cfgA, opts = mk_config(prog, st, dict(fixed_common, fixed_kar_order=True))
         fixedB = dict(fixed_common, fixed_kar_order=False)
-        for o in ("fixed_vowel", "fixed_chandra", "fixed_kar", "fixed_old_reph"):
+        for o in ("fixed_vowel", "fixed_chandra", "fixed_kar", "fixed_old_reph", "fixed_suggestion"):
             fixedB[o] = opts[o]
         cfgB, _ = mk_config(prog, st, fixedB)
         fmA = mk_fixed(prog, [], [], None, [], [(key_name("Key_a_Normal"), [0x20])])
@@ -1192,12 +1203,13 @@ def make_kar_history(shape, prop_fn=None, constrain=None):
                 before = list(fm_field(prog, fmA, "buffer").elems)
                 ret, ong = press(fmA, cfgA, v)
                 pend = fm_field(prog, fmA, "pending_kar")
-                txt = ret.fields[prog.enum_fields[("Suggestion", "Single")].index("suggestion")].elems
+                txt = shown_text(prog, ret)
                 captured = (len(v) == 1 and not is_sym(v[0]) and v[0] in CL.LEFT_KARS and pend.variant == 1)
                 trail.append(dict(pending=pend.variant == 1, ongoing=ong, shown=list(txt), before=before, captured=captured,
                                   buffer=list(fm_field(prog, fmA, "buffer").elems)))
             for v in unv:
-                press(fmB, cfgB, v)
+                retb, _ = press(fmB, cfgB, v)
+                st.ctx["shown_b"] = list(shown_text(prog, retb))
             # one backspace discards a waiting sign: replay the typewriter prefix that ends with a pending sign
             return None
         return run
@@ -1222,6 +1234,10 @@ def make_kar_history(shape, prop_fn=None, constrain=None):
         recs.append(dict(kind="witness", inputs=inputs(model),
                          predicted=dict(a=model_string(model, a), b=model_string(model, b), pending_a=pa.variant == 1)))
         clauses = [("same_text", seq_eq(a, b)), ("no_sign_left_pending", pa.variant == 0)]
+        # what the user sees after every key is the text as composed so far (nothing remembered from an earlier key)
+        clauses.append(("every_key_shows_the_composed_text", z3.And([seq_eq(t["shown"], t["buffer"]) for t in c["trail"]]) if c["trail"] else True))
+        if c["trail"] and "shown_b" in c:
+            clauses.append(("same_shown_text", seq_eq(c["trail"][-1]["shown"], c["shown_b"])))
         for i, t in enumerate(c["trail"]):
             if t["pending"]:
                 clauses.append(("pending_sign_not_shown", z3.And(seq_eq(t["shown"], t["buffer"]),
@@ -1247,7 +1263,7 @@ def make_kar_history(shape, prop_fn=None, constrain=None):
     return build, on_path
 
 
-def kar_scenario(inp):
+def kar_scenario(inp, every_key=False):
     """Native replay: two contexts, typewriter order with the option on, Unicode order with it off."""
     vals = []
     for v in inp["typewriter"] + inp["unicode"]:
@@ -1258,15 +1274,27 @@ def kar_scenario(inp):
         lay["Key_%s_Normal" % PLANT_NAMES[i]] = v
     oa = dict(inp["opts"], kar_order=True)
     ob = dict(inp["opts"], kar_order=False)
-    steps = [{"op": "new", "ctx": 0, "config": {"layout_json": lay, "opts": oa}},
-             {"op": "new", "ctx": 1, "config": {"layout_json": lay, "opts": ob}}]
+    ca, cb = {"layout_json": lay, "opts": oa}, {"layout_json": lay, "opts": ob}
+    if inp["opts"].get("fixed_suggestion"):
+        from common import REPO
+        ca["database"] = cb["database"] = REPO + "/data"
+    steps = [{"op": "new", "ctx": 0, "config": ca}, {"op": "new", "ctx": 1, "config": cb}]
     for v in inp["typewriter"]:
         steps.append({"op": "key", "ctx": 0, "key": PLANT_KEYS[vals.index(v)]})
+        if every_key:
+            steps.append({"op": "get_state", "ctx": 0, "_each": True})
     steps.append({"op": "get_state", "ctx": 0})
     for v in inp["unicode"]:
         steps.append({"op": "key", "ctx": 1, "key": PLANT_KEYS[vals.index(v)]})
     steps.append({"op": "get_state", "ctx": 1})
     return {"steps": steps}
+
+
+def native_shown(x):
+    s = x.get("suggestion") or {}
+    if s.get("kind") == "full":
+        return (s.get("list") or [""])[0]
+    return s.get("text", "")
 
 
 def kar_compare(w, res):
@@ -1293,6 +1321,22 @@ def confirm_kar(check, name, vio, classify, describe):
     for key, vs in sorted(groups.items()):
         confirmed = None
         for v in vs[:8]:
+            if v["clause"] in ("every_key_shows_the_composed_text", "same_shown_text"):
+                # the composition itself may be right: look at what every key returned
+                sc = kar_scenario(v["inputs"], every_key=True)
+                res = run_replay([sc])[0]
+                rr = res["results"]
+                if any("panic" in x for x in rr):
+                    continue
+                for i, x in enumerate(rr):
+                    if x.get("op") == "key" and i + 1 < len(rr) and rr[i + 1].get("op") == "get_state" and sc["steps"][i + 1].get("_each"):
+                        if native_shown(x) != rr[i + 1]["state"]["buffer"]:
+                            v = dict(v, predicted=dict(v["predicted"], shown=native_shown(x), composed=rr[i + 1]["state"]["buffer"], key_number=sum(1 for y in rr[:i + 1] if y.get("op") == "key") - 0))
+                            confirmed = (v, sc, res)
+                            break
+                if confirmed:
+                    break
+                continue
             sc = kar_scenario(v["inputs"])
             res = run_replay([sc])[0]
             if kar_compare(v, res) is None:
@@ -1327,6 +1371,9 @@ def describe_kar(v):
     i = v["inputs"]
     if v["predicted"].get("panic") is not None:
         return "typing %s in typewriter order panics: %s" % (i["typewriter"], v["predicted"]["panic"])
+    if v["predicted"].get("shown") is not None:
+        return "typewriter order %s with old kar order (options %s): key number %d returns %r while the text composed so far is %r" % (
+            i["typewriter"], ",".join(k for k, x in i["opts"].items() if x), v["predicted"].get("key_number", 0), v["predicted"]["shown"], v["predicted"]["composed"])
     return "typewriter order %s with old kar order gives %r, Unicode order %s without it gives %r (clause %s, options %s)" % (
         i["typewriter"], v["predicted"]["a"], i["unicode"], v["predicted"]["b"], v["clause"],
         ",".join(k for k, x in i["opts"].items() if x))
